@@ -211,17 +211,19 @@ impl<Db: Database> StorageManager<Db> {
             ))),
         }?;
 
-        // update the cache
-        if let Some(cache) = &self.cache {
-            cache.batch_put(&records).await;
-        }
-
-        // Write to the database
+        // Write to the database first, so that the cache never holds records
+        // which storage did not accept (e.g. when this write fails)
+        let to_cache = self.cache.as_ref().map(|_| records.clone());
         self.tic_toc(
             METRIC_WRITE_TIME,
             self.db.batch_set(records, DbSetState::TransactionCommit),
         )
         .await?;
+
+        // update the cache
+        if let (Some(cache), Some(records)) = (&self.cache, to_cache) {
+            cache.batch_put(&records).await;
+        }
         self.increment_metric(METRIC_BATCH_SET);
         Ok(num_records as u64)
     }
@@ -264,13 +266,15 @@ impl<Db: Database> StorageManager<Db> {
             return Ok(());
         }
 
+        // write to the database first, so that the cache never holds a record
+        // which storage did not accept
+        let to_cache = self.cache.as_ref().map(|_| record.clone());
+        self.tic_toc(METRIC_WRITE_TIME, self.db.set(record)).await?;
+
         // update the cache
-        if let Some(cache) = &self.cache {
+        if let (Some(cache), Some(record)) = (&self.cache, to_cache) {
             cache.put(&record).await;
         }
-
-        // write to the database
-        self.tic_toc(METRIC_WRITE_TIME, self.db.set(record)).await?;
         self.increment_metric(METRIC_SET);
         Ok(())
     }
@@ -288,17 +292,19 @@ impl<Db: Database> StorageManager<Db> {
             return Ok(());
         }
 
-        // update the cache
-        if let Some(cache) = &self.cache {
-            cache.batch_put(&records).await;
-        }
-
-        // Write to the database
+        // Write to the database first, so that the cache never holds records
+        // which storage did not accept
+        let to_cache = self.cache.as_ref().map(|_| records.clone());
         self.tic_toc(
             METRIC_WRITE_TIME,
             self.db.batch_set(records, DbSetState::General),
         )
         .await?;
+
+        // update the cache
+        if let (Some(cache), Some(records)) = (&self.cache, to_cache) {
+            cache.batch_put(&records).await;
+        }
         self.increment_metric(METRIC_BATCH_SET);
         Ok(())
     }
